@@ -20,10 +20,10 @@ import (
 	"github.com/hashicorp/consul/agent/consul/fsm"
 	"github.com/hashicorp/consul/agent/consul/state"
 	"github.com/hashicorp/consul/agent/consul/stream"
+	"github.com/hashicorp/consul/agent/netutil"
 	"github.com/hashicorp/consul/agent/structs"
 	raftstorage "github.com/hashicorp/consul/internal/storage/raft"
 	"github.com/hashicorp/consul/internal/verifsim/simkit"
-	"github.com/hashicorp/consul/agent/netutil"
 )
 
 func init() {
@@ -77,7 +77,7 @@ type Replica struct {
 type nullHandle struct{}
 
 func (nullHandle) Apply([]byte) (any, error) { return nil, errors.New("no raft") }
-func (nullHandle) IsLeader() bool             { return true }
+func (nullHandle) IsLeader() bool            { return true }
 
 func NewReplica(name string, gcTTL, gcGran time.Duration) *Replica {
 	return NewReplicaPub(name, gcTTL, gcGran, nil)
